@@ -321,18 +321,24 @@ def float_grid(_):
             cwd = os.getcwd()
             os.chdir(wd)
             try:
-                for (T, dt, dts) in [(0.7, 0.1, 0.1), (0.3, 0.1, None), (0.6, 0.2, 0.2), (1.4, 0.1, 0.2), (0.9, 0.3, 0.3), (2.1, 0.1, 0.7), (0.35, 0.05, 0.05)]:
+                grid_cfgs = [(T_, dt_, dts_, "default") for (T_, dt_, dts_) in [(0.7, 0.1, 0.1), (0.3, 0.1, None), (0.6, 0.2, 0.2), (1.4, 0.1, 0.2), (0.9, 0.3, 0.3), (2.1, 0.1, 0.7), (0.35, 0.05, 0.05)]]
+                # sampling steps whose quotient with the step lies just below an integer in floating point (0.3/0.1 = 2.9999999999999996), on every backend's own loop
+                grid_cfgs += [(T_, dt_, dts_, be_) for be_ in ("default", "torch", "jax") for (T_, dt_, dts_) in [(0.9, 0.1, 0.3), (1.2, 0.1, 0.6), (1.4, 0.1, 0.7)]]
+                for (T, dt, dts, be) in grid_cfgs:
                     op = OperatorTemplate(name="op", equations=["x' = -0.5*x + 0.25*z", "z' = 0.5*x"], variables={"x": "output(1.0)", "z": "variable(2.0)"}, path=None)
                     c = CircuitTemplate(name="c", nodes={"p": NodeTemplate(name="n", operators=[op], path=None)}, edges=[])
                     kw = dict(simulation_time=T, step_size=dt, solver="euler", outputs={"x": "p/op/x", "z": "p/op/z"}, float_precision="float64",
                               verbose=False, in_place=False)
                     if dts:
                         kw["sampling_step_size"] = dts
+                    if be != "default":
+                        kw["backend"] = be
+                    bb.np = _PoisonNP(orig) if be == "default" else orig        # (the poisoned allocator is for the numpy loops only)
                     st = dts or dt
                     try:
                         r = c.run(**kw)
                     except Exception as e:
-                        bad.append({"level": "e2e", "T": T, "dt": dt, "dts": dts, "error": type(e).__name__})
+                        bad.append({"level": "e2e", "backend": be, "T": T, "dt": dt, "dts": dts, "error": type(e).__name__})
                         continue
                     done += 1
                     sf = round(st / dt)
@@ -346,7 +352,7 @@ def float_grid(_):
                     vals = r[["x", "z"]].values if r.shape[1] == 2 else r.values
                     if vals.shape != ref.shape or np.isnan(vals).any() or not np.allclose(vals, ref, rtol=1e-9) \
                             or not np.allclose(r.index.values, np.arange(round(T / st)) * st, atol=1e-12):
-                        bad.append({"level": "e2e", "T": T, "dt": dt, "dts": dts, "shape": list(vals.shape), "expected_shape": list(ref.shape),
+                        bad.append({"level": "e2e", "backend": be, "T": T, "dt": dt, "dts": dts, "shape": list(vals.shape), "expected_shape": list(ref.shape),
                                     "index": r.index.values.tolist(), "nan": bool(np.isnan(vals).any())})
             finally:
                 os.chdir(cwd)
@@ -521,6 +527,8 @@ def check(tier, seed, replay=None):
     rep = C.Report(PID, tier, seed)
     rng = random.Random(seed)
     proof_ok, detail = C.prepare_lean(rep)
+    # (forked first: this stream uses jax and torch in the child, which does not survive a fork of a parent that has already started their threads)
+    fg = C.run_forked(float_grid, [0], timeout=1200)[0] if not replay else {"done": 0, "bad": []}
     tables, _ = extract_tables.extract(C.REPO)
     rep.cov["rule"] = ("exact polynomial vector fields (dyadic coefficients, degree <= 2, optional integer input samples indexed by the step counter, "
                        "optional explicit step-counter dependence at unit level) integrated with (T, dt, dts, cutoff) where dts = s*dt, T = m*dts; "
@@ -582,10 +590,8 @@ def check(tier, seed, replay=None):
     ns, sbad = smoke_adaptive(rng, 3 if tier == "quick" else 12) if not replay else (0, [])
     rep.cov["streams"]["adaptive_smoke_runs_not_part_of_proof"] = ns
     rep.cov["streams"]["adaptive_smoke_failures"] = len(sbad)
-    fg = C.run_forked(float_grid, [0], timeout=600)[0] if not replay else {"done": 0, "bad": []}
     if "crash" in fg:
-        rep.notes.append("float-grid stream crashed: " + str(fg.get("crash")))
-        fg = {"done": 0, "bad": [{"crash": fg.get("crash")}]}
+        raise C.HarnessError("float-grid stream crashed or timed out: " + str(fg.get("crash"))[:300])
     rep.count("float-grid (non-dyadic T, dt, dts; poisoned np.empty)", None, n=fg["done"])
     rep.cov["streams"]["float_grid_runs"] = fg["done"]
     rep.cov["streams"]["float_grid_failures"] = len(fg["bad"])
